@@ -236,11 +236,18 @@ func (e *Event) Name() string {
 }
 
 // FuncName renders pkg.Func or pkg.(Type).Method without type arguments.
+// CanonFunc maps functions of the subject to the canonical name the rules know them by (set by the rule layer when an unexported
+// helper was renamed or moved and has been re-identified by its shape).
+var CanonFunc map[*types.Func]string
+
 func FuncName(f *types.Func) string {
 	if f == nil {
 		return "?"
 	}
 	f = f.Origin()
+	if n, ok := CanonFunc[f]; ok {
+		return n
+	}
 	sig, _ := f.Type().(*types.Signature)
 	pkg := ""
 	if f.Pkg() != nil {
